@@ -2,7 +2,7 @@
     Model: Lexer.v (one logical line of ASCII Python 3.12 as [tokenize] reports it), Untok.v
     (compat-mode [untokenize]; [list_tokens], [replace_token], [replace_lookup] =
     [utils.replace_token_from_lookup]), Wf.v (decidable well-formedness for re-lexing).
-    Proofs: LexProofs.v, RelexProofs.v, HygieneProofs.v, ValueProofs.v.
+    Proofs: LexProofs.v, RelexProofs.v, HygieneProofs.v, FuelProofs.v, RestrictProofs.v, ValueProofs.v.
 
     Why [ops_safe] holds for syntactically valid expressions: two operator tokens that the
     lexer would fuse when abutted ([*] [*], [<] [=], [.] [.] [.], [-] [>], [:] [=], [!] [=], and
@@ -13,7 +13,7 @@
     text parses to the renamed AST (C13_value is stated on the AST of Base/Expr.v). *)
 From Coq Require Import List String Ascii Bool PrimFloat Reals.
 From SFC.Base Require Import Res Expr.
-From SFC.Lex Require Import Lexer Untok Wf LexProofs RelexProofs HygieneProofs ValueProofs FuelProofs.
+From SFC.Lex Require Import Lexer Untok Wf LexProofs RelexProofs HygieneProofs ValueProofs FuelProofs RestrictProofs.
 Import ListNotations.
 Local Open Scope string_scope.
 
@@ -106,6 +106,25 @@ Theorem C13_relex_replace : forall s ts body cmt m,
 Proof. exact relex_replace. Qed.
 Print Assumptions C13_relex_replace.
 
+(** What [lex] returns is always such a line: with INDENT/DEDENT (and the NL of a blank-only
+    line) removed ([norm]) it is [line body cmt] where [body] are its content tokens, every one
+    of them [wf_tok], brackets closed, the comment well formed. *)
+Theorem C13_lexed_wf : forall s ts, lex s = Ok ts ->
+  exists body cmt, norm ts = line body cmt /\ content ts = body /\
+    forallb wf_tok body = true /\ depth_run 0 body = Some 0 /\ wf_comment cmt = true.
+Proof. exact lex_line. Qed.
+Print Assumptions C13_lexed_wf.
+
+(** Hence, for every line the implementation can tokenize: if no operator token of the line
+    fuses with its successor and the new names are identifiers, the text returned by
+    [replace_token_from_lookup] lexes to exactly the line's tokens with the NAME tokens in the
+    lookup's domain replaced, simultaneously - nothing else changes. *)
+Theorem C13_relex_lexed : forall s ts m,
+  lex s = Ok ts -> ops_safe (content ts) = true -> ident_range m = true ->
+  exists out, replace_lookup m s = Ok out /\ lex out = Ok (map (ren m) (norm ts)).
+Proof. exact relex_lexed. Qed.
+Print Assumptions C13_relex_lexed.
+
 (** [ops_safe] is genuinely needed: the operators of [a* *b] fuse in the output. *)
 Theorem C13_ops_safe_needed :
   let body := [(NAME, "a"); (OP, "*"); (OP, "*"); (NAME, "b")] in
@@ -173,9 +192,10 @@ Example C13_realistic :
                (OP, ")"); (OP, "**"); (NUMBER, "2"); (OP, ">="); (OP, "["); (NUMBER, "1.0"); (OP, ","); (NUMBER, ".5j");
                (OP, "]"); (OP, "*"); (NUMBER, "20")] in
   let m := [("x", "e5"); ("e5", "x"); ("x1", "HH__x1"); ("k", "t"); ("LAG", "nope"); ("e", "nope")] in
-  (exists ts, lex s = Ok ts /\ strip ts = line body (Some "# note")) /\
+  (exists ts, lex s = Ok ts /\ strip ts = line body (Some "# note") /\ content ts = body /\
+              ops_safe (content ts) = true) /\
   wf_body body = true /\ wf_comment (Some "# note") = true /\ ident_range m = true /\
   replace_lookup m s =
     Ok "HH__F =LAG_F (t -1 )+0.8 *(HH__x1 -x )/max (e5 ,1e-5 ,0x1f )**2 >=[1.0 ,.5j ]*20 # note".
-Proof. vm_compute. repeat split. eexists. split; reflexivity. Qed.
+Proof. vm_compute. repeat split. eexists. repeat split; reflexivity. Qed.
 Print Assumptions C13_realistic.
